@@ -52,6 +52,7 @@ pub open spec fn kruger(s01: real, s12: real) -> real {
                 requires r_ * (a + b) == 2real, (a + b) * (s01 * s12) == s12 + s01;
             assert(r_ == 2real * s01 * s12 / (s01 + s12)) by(nonlinear_arith)
                 requires r_ * (s01 + s12) == 2real * s01 * s12, s01 + s12 != 0real;
+            assert(__r == fdiv(2.0f64, fadd(frecip(slope01), frecip(slope12)))); // [bits] harmonic mean through the two reciprocals: no product of the secants that could overflow
         }
 //@end
 
